@@ -45,8 +45,10 @@ def _named_factory():
     return ValueError("named")
 
 
-def _cond_fn(args, mandatory, coro_fn):
-    params = ", ".join(a if a in mandatory else "%s=None" % a for a in args)
+def _cond_fn(args, mandatory, coro_fn, variadic=None):
+    variadic = variadic or {}
+    params = ", ".join(("*" + a) if variadic.get(a) == "varPos" else ("**" + a) if variadic.get(a) == "varKw"
+                       else a if a in mandatory else "%s=None" % a for a in args)
     ns = {}
     exec("%sdef cond(%s):\n    return True" % ("async " if coro_fn else "", params), ns)
     return ns["cond"]
@@ -79,7 +81,7 @@ def run(case):
             else:
                 d(lambda x: x)
         elif what == "invariant_cond":
-            cond = _cond_fn(case["condArgs"], case["condMandatory"], case["coroFn"])
+            cond = _cond_fn(case["condArgs"], case["condMandatory"], case["coroFn"], case.get("variadic"))
             d = icontract.invariant(cond, enabled=case["enabled"])
             phase = "apply"
             d(type("K", (), {}))
